@@ -843,11 +843,35 @@ func checkHexJSON(ctx *pbt.Ctx, c Scr) error {
 		return fmt.Errorf("json.Marshal = %s, want %q", short(jb), want)
 	}
 	var u bscript.Script
+	jbKept := append([]byte(nil), jb...)
 	if err := json.Unmarshal(jb, &u); err != nil {
 		return fmt.Errorf("json.Unmarshal(%s): %v", short(jb), err)
 	}
 	if !bytes.Equal(u, script) {
 		return fmt.Errorf("JSON round trip: %s -> %s -> %s", short(script), short(jb), short(u))
+	}
+	// (tenth round) the JSON text is the caller's: reading it leaves it as it was (it can be read
+	// again), and what was read does not live in it (encoding/json: "UnmarshalJSON must copy the JSON
+	// data if it wishes to retain the data after returning") - the caller's buffer is refilled below
+	if !bytes.Equal(jb, jbKept) {
+		return fmt.Errorf("json.Unmarshal into a script changed the JSON text it was given: %s became %s", short(jbKept), short(jb))
+	}
+	var u2 bscript.Script
+	own := append([]byte(nil), jbKept...)
+	if err := u2.UnmarshalJSON(own); err != nil || !bytes.Equal(u2, script) {
+		return fmt.Errorf("UnmarshalJSON(%s) = %s, %v", short(jbKept), short(u2), err)
+	}
+	if !bytes.Equal(own, jbKept) {
+		return fmt.Errorf("Script.UnmarshalJSON changed the JSON text it was given: %s became %s", short(jbKept), short(own))
+	}
+	for i := range own {
+		own[i] = 0xee
+	}
+	for i := range jb {
+		jb[i] = 0xdd
+	}
+	if !bytes.Equal(u2, script) || !bytes.Equal(u, script) {
+		return fmt.Errorf("a script read from JSON changed when the caller refilled the buffer the text was in: %s became %s / %s", short(script), short(u), short(u2))
 	}
 	// as a struct field behind a pointer, the way Input/Output JSON carries it
 	type holder struct {
